@@ -19,12 +19,12 @@ func init() {
 
 // txAnchors resolves the functions and fields both properties talk about.
 type txAnchors struct {
-	mainFn, sendReqTo, sendRspTo, reqDisp                     *ssa.Function
-	txSend, txRecv, txTimeout, txStart, rxSend, rxRecv        *ssa.Function
-	rxTimeout, rxStart, newTx, newRx, stopTimers              *ssa.Function
-	rxTrans, txTrans, txSeq, conn                             *types.Var
-	writeTo                                                   *types.Func
-	ok                                                        bool
+	mainFn, sendReqTo, sendRspTo, reqDisp              *ssa.Function
+	txSend, txRecv, txTimeout, txStart, rxSend, rxRecv *ssa.Function
+	rxTimeout, rxStart, newTx, newRx, stopTimers       *ssa.Function
+	rxTrans, txTrans, txSeq, conn                      *types.Var
+	writeTo                                            *types.Func
+	ok                                                 bool
 }
 
 func getTxAnchors(c *core.Ctx, rule string) *txAnchors {
